@@ -12,7 +12,7 @@ from vf.spec import responses as R
 
 ID = "C05"
 LEVEL = "exploration"
-TECHNIQUE = "deviation-bounded exhaustive enumeration of valid parameter dictionaries; every composed data-out list is decoded by independent decoders that also recompute every embedded length, and the CDB's parameter list length is read back with the spec CDB decoder"
+TECHNIQUE = "(two threads sharing one set of EXTENDED COPY descriptor dictionaries: all schedules with one preemption at source-line granularity) deviation-bounded exhaustive enumeration of valid parameter dictionaries; every composed data-out list is decoded by independent decoders that also recompute every embedded length, and the CDB's parameter list length is read back with the spec CDB decoder"
 RULE = ("MODE SELECT 6/10 x 4 pages x every field over its alphabet (k deviations from all-zero/all-ones, k=1 quick, 2 thorough) x pf/sp x header "
         "values x 1-2 pages per list, plus lists of 3-200 pages (MODE SELECT(10): across 255 bytes up to ~6 KB; MODE SELECT(6): up to 7 pages); PERSISTENT RESERVE OUT x service actions 0-8 x 64-bit key alphabets x flag products x 0-3 TransportIDs of 6 "
         "kinds x iSCSI name lengths 1..26 x format 00b/01b, REGISTER AND MOVE with/without TransportID; EXTENDED COPY LID1 and LID4 x header "
@@ -507,12 +507,15 @@ def seg_of(i, ver):
 
 
 def replay(case):
+    if case and case[0] == "sched":
+        from vf.props import c09
+        return c09.replay(case)
     return run_case(c04._unjson(case))
 
 
 def partitions(tier):
     parts = [["mode", 0], ["mode", 1], ["prout_keys"], ["prout_tids"], ["prout_iscsi"], ["xcopy", 4], ["xcopy", 5]]
-    return [[p, c] for p in parts for c in range(NCHUNK)]
+    return [[p, c] for p in parts for c in range(NCHUNK)] + [[["shared_threads", 4], 0], [["shared_threads", 5], 0]]
 
 
 def gen(part, tier):
@@ -621,6 +624,14 @@ NCHUNK = 4
 def run_partition(part, tier, seed):
     acc = Acc(seed)
     part, chunk = part
+    if part[0] == "shared_threads":
+        # two threads build EXTENDED COPY commands from ONE set of caller dictionaries (a job template handed to two workers): all
+        # schedules with one preemption at every source line; each thread's CDB and parameter list are what it builds alone
+        # (scheduler and bodies shared with C09)
+        from vf.props import c09
+        name = "ExtendedCopy%d@shared" % part[1]
+        c09.run_schedules([name, name], 1, None, acc, "line")
+        return acc
     prev = None
     anchor = None
     for n, case in enumerate(gen(part, tier)):
